@@ -10,7 +10,10 @@ use quote::quote;
 use regex::Regex;
 use trustfall::{Schema, SchemaAdapter, TryIntoStruct};
 
-use crate::util::{escaped_rust_name, parse_import, to_lower_snake_case, upper_case_variant_name};
+use crate::util::{
+    escaped_rust_name, parse_import, to_lower_snake_case, upper_case_variant_name,
+    vertex_conversion_fn_name,
+};
 
 use super::{
     adapter_creator::make_adapter_file, edges_creator::make_edges_file,
@@ -428,6 +431,7 @@ fn ensure_no_vertex_name_conflicts(querying_schema: &Schema, adapter: Arc<Schema
 
     let mut uniq: HashMap<String, String> = HashMap::new();
     let mut uniq_variants: HashMap<String, String> = HashMap::new();
+    let mut uniq_conversions: HashMap<String, String> = HashMap::new();
 
     for row in rows {
         let name = row.name.clone();
@@ -445,7 +449,16 @@ fn ensure_no_vertex_name_conflicts(querying_schema: &Schema, adapter: Arc<Schema
         // Names like `fOo` and `FOo` have different snake case forms (`f_oo` and `foo`),
         // but become the same `Vertex` enum variant name.
         let variant = escaped_rust_name(upper_case_variant_name(&name));
-        if let Some(v) = uniq_variants.insert(variant, name) {
+        // Variants like `AA` and `A_a` are distinct, but `#[derive(TrustfallEnumVertex)]`
+        // generates the same `as_a_a()` conversion method for both of them.
+        let conversion = vertex_conversion_fn_name(&variant);
+        if let Some(v) = uniq_variants.insert(variant, name.clone()) {
+            panic!(
+                "cannot generate adapter for a schema containing both '{}' and '{}' vertices, consider renaming one of them",
+                v, row.name
+            );
+        }
+        if let Some(v) = uniq_conversions.insert(conversion, name) {
             panic!(
                 "cannot generate adapter for a schema containing both '{}' and '{}' vertices, consider renaming one of them",
                 v, row.name
